@@ -8,6 +8,8 @@
 #include "ccl/lang/TextEnvironment.h"
 #include "ccl/lang/LexicalTerm.h"
 
+#include <charconv>
+
 namespace ccl::lang {
 
 namespace {
@@ -131,10 +133,15 @@ Reference Reference::Parse(std::string_view refStr) {
     return Reference{ EntityRef{ std::string{ tokens.at(EntityRef::TR_ENTITY) }, std::move(form) } };
   }
   case ReferenceType::collaboration: {
-    return Reference{ 
-      CollaborationRef{ std::string{ tokens.at(CollaborationRef::CR_TEXT) },
-      static_cast<int16_t>(stoi(std::string{ tokens.at(CollaborationRef::CR_OFFSET) })) } 
-    };
+    // Note: offset text is checked by IsInteger, but its value can exceed the range of CollaborationRef::offset
+    const auto offsetText = tokens.at(CollaborationRef::CR_OFFSET);
+    const auto* const textEnd = offsetText.data() + offsetText.size();
+    int16_t offset{};
+    const auto [parseEnd, errorCode] = std::from_chars(offsetText.data(), textEnd, offset);
+    if (errorCode != std::errc{} || parseEnd != textEnd) {
+      return {};
+    }
+    return Reference{ CollaborationRef{ std::string{ tokens.at(CollaborationRef::CR_TEXT) }, offset } };
   }
   default:
   case ReferenceType::invalid: return {};
